@@ -37,7 +37,11 @@ def s_history(draw):
     in_run = False
     n = draw(st.integers(1, 14))
     for _ in range(n):
-        kind = draw(st.sampled_from(["route", "id", "run", "ev", "ev", "ev"]))
+        kind = draw(st.sampled_from(["route", "id", "run", "ev", "ev", "ev", "bad_rule"]))
+        if kind == "bad_rule":
+            ops.append({"op": "bad_rule", "sink": draw(st.integers(1, NSINK - 1)), "dssr": draw(st.booleans()),
+                        "how": draw(st.sampled_from(["multi-step-prefix", "unknown-policy", "bad-keyword"]))})
+            continue
         if kind == "route":
             free = [s for s in SEGS if s not in used_prefix]
             if not free:
@@ -109,6 +113,18 @@ def run_history(spec):
                     want[op["sink"]].append(("startTestRun",))
             if in_run:
                 midrun = True
+        elif k == "bad_rule":
+            # a rule the router must reject: nothing about the run or the sink may change
+            try:
+                if op["how"] == "multi-step-prefix":
+                    router.add_rule(sinks[op["sink"]], "route_code_prefix", do_start_stop_run=op["dssr"], route_prefix="0/1")
+                elif op["how"] == "unknown-policy":
+                    router.add_rule(sinks[op["sink"]], "no-such-policy", do_start_stop_run=op["dssr"])
+                else:
+                    router.add_rule(sinks[op["sink"]], "test_id", do_start_stop_run=op["dssr"], route_prefix="0")
+                vs.append(V("add_rule", "invalid-accepted", "add_rule accepted an invalid rule (%s)" % op["how"]))
+            except (TypeError, ValueError):
+                pass
         elif k == "start":
             router.startTestRun()
             in_run = True
